@@ -11,8 +11,12 @@ Definition as_usize (z : Z) : Z := z mod two64.
 
 (* number of iterations of the padding loop for a fractional part of `len` digits (0 when the part is
    truncated instead) *)
-Definition pad_iterations (scale len : Z) : Z :=
+Definition pad_iterations_cast (scale len : Z) : Z :=
   let i := as_usize scale in if (len <? i)%Z then (i - len)%Z else 0%Z.
+
+(* since the fix: commit 77df93e a scale <= 0 truncates the fractional part and never reaches the cast *)
+Definition pad_iterations (scale len : Z) : Z :=
+  if (scale <=? 0)%Z then 0%Z else pad_iterations_cast scale len.
 
 (* MultiZip::next: one element from every iterator, None as soon as one of them is exhausted *)
 Fixpoint heads_tails (its : list (list value)) : option (list value * list (list value)) :=
@@ -36,6 +40,10 @@ Fixpoint multizip (fuel : nat) (its : list (list value)) : option (list (list va
       | Some (hs, ts) => match multizip f ts with Some r => Some (hs :: r) | None => None end
       end
   end.
+
+(* zip_all since the fix: commit ab82607: MultiZip::next returns None when there is no iterator at all *)
+Definition zip_all (fuel : nat) (its : list (list value)) : option (list (list value)) :=
+  match its with [] => Some [] | _ => multizip fuel its end.
 
 Definition min_len (its : list (list value)) : nat :=
   match its with
